@@ -111,6 +111,17 @@ def carrierOf (alt : List (List Nat × List (List Nat))) (r : Nat) : Option Nat 
 def cands26 (direct detour : Nat → List Nat) (alt : List (List Nat × List (List Nat))) (r : Nat) : List (List Nat) :=
   [direct r, detour r] ++ ((carrierOf alt r).map direct).toList
 
+/-- detours for a reading that is a lone initial: type the initial the layout rewrites in context, a medial
+    that triggers the rewrite, Backspace (drops the medial), then the tone key -/
+def loneInitialDetours (tbl : List (Nat × Nat × Nat × Nat)) (toneKeys : List (Nat × Nat)) (subst : Nat → Nat)
+    (r : Nat) : List (List Nat) :=
+  match initial r, medial r, rime r with
+  | some s, none, none =>
+    [Sym.I, Sym.U, Sym.IU].map fun m =>
+      (rowKey tbl false false (subst s)).toList ++ (rowKey tbl true false m).toList ++
+        [keyCodeBackspace, toneKeyFor toneKeys (tone r)]
+  | _, _, _ => []
+
 /-- the explicit inverse: the first candidate that enters `r` -/
 def keysFor (L : Layout) (cands : Nat → List (List Nat)) (r : Nat) : List Nat :=
   ((cands r).find? fun keys => entersB L keys r).getD []
@@ -118,8 +129,9 @@ def keysFor (L : Layout) (cands : Nat → List (List Nat)) (r : Nat) : List Nat 
 def hsuSubst (s : Nat) : Nat :=
   if s == Sym.J then Sym.ZH else if s == Sym.Q then Sym.CH else if s == Sym.X then Sym.SH else s
 
-def hsuCands : Nat → List (List Nat) :=
-  cands26 (direct26 hsuKeys hsuEndRewrites hsuToneKeys hsuSubst) (fun _ => []) hsuAltTable
+def hsuCands (r : Nat) : List (List Nat) :=
+  cands26 (direct26 hsuKeys hsuEndRewrites hsuToneKeys hsuSubst) (fun _ => []) hsuAltTable r ++
+    loneInitialDetours hsuKeys hsuToneKeys hsuSubst r
 
 def et26Subst (s : Nat) : Nat :=
   if s == Sym.ZH then Sym.J else if s == Sym.SH then Sym.X else if s == Sym.Q then Sym.G else s
@@ -131,8 +143,9 @@ def et26Detour (r : Nat) : List Nat :=
       [keyCodeBackspace, toneKeyFor et26ToneKeys (tone r)]
   else []
 
-def et26Cands : Nat → List (List Nat) :=
-  cands26 (direct26 et26Keys et26EndRewrites et26ToneKeys et26Subst) et26Detour et26AltTable
+def et26Cands (r : Nat) : List (List Nat) :=
+  cands26 (direct26 et26Keys et26EndRewrites et26ToneKeys et26Subst) et26Detour et26AltTable r ++
+    loneInitialDetours et26Keys et26ToneKeys et26Subst r
 
 /-- DaChen26: keys are `KeyIndex` values (= Qwerty key codes); a symbol that is the alternative of a
     `default_or_alt` key is that key twice; ㄧ/ㄚ (`K21`) and ㄩ/ㄡ (`K44`) follow their cycles -/
